@@ -297,6 +297,10 @@ def sanitizer_key(text):
         if m:
             kind = "libstdcxx-assert:" + m.group(1)[:60]
     if kind is None:
+        m = re.search(r"^Error: (attempt to [^\n]*|[^\n]*iterator[^\n]*)$", text, re.M)   # libstdc++ debug mode (_GLIBCXX_DEBUG)
+        if m:
+            kind = "libstdcxx-debug:" + m.group(1).strip().rstrip(".")[:70]
+    if kind is None:
         m = re.search(r"WARNING: ThreadSanitizer: ([\w -]+)", text)
         if m:
             kind = "tsan:" + m.group(1).strip()
